@@ -56,6 +56,54 @@ def rand_history(rng: random.Random, n: int):
     return calls
 
 
+def attach_history(rng: random.Random):
+    """many origins and destinations over six nodes: the same object attached at several nodes, replaced, the element
+    maps read between any two attachments (fast paths that only switch on for larger lookups)"""
+    calls = [["add_path", ["n1", "l1", "n2", "l2", "n3", "l3", "n4", "l4", "n5", "l5", "n6"], "", ""]]
+    at = {"o": {}, "d": {}}
+    for _ in range(rng.randint(8, 20)):
+        k = "o" if rng.random() < 0.6 else "d"
+        pool = ORIGS if k == "o" else DESTS
+        used = sorted(set(at[k].values()))
+        el = rng.choice(used) if used and rng.random() < 0.35 else rng.choice(pool)     # again somewhere else, or any
+        node = rng.choice(NODES)
+        calls.append(["add_origin" if k == "o" else "add_destination", el, node])
+        at[k][node] = el
+        r = rng.random()
+        names = ["origins", "origins_by_node", "origins_by_name"] if k == "o" else ["destinations", "destinations_by_node", "destinations_by_name"]
+        if r < 0.6:
+            calls.append(["read", names[0]])
+        elif r < 0.75:
+            calls.append(["read", rng.choice(names[1:])])
+        elif r < 0.9:
+            calls.append(["is_valid"])
+    calls += [["read", "origins"], ["read", "destinations"], ["is_valid"]]
+    return calls
+
+
+def big_near_valid_history(rng: random.Random):
+    """a VALID chain of six nodes with a mainstream origin, three or four on-ramps and a destination (more elements than
+    any enumerated shape), then two to four attachments - an element that is attached already, or another one - each
+    followed by the question whether the network is valid: near-valid networks where one attachment decides"""
+    steps = [["add_link", f"n{i}", f"l{i}", f"n{i + 1}"] for i in range(1, 6)]
+    ramps = rng.sample([2, 3, 4, 5], rng.choice([3, 4]))
+    steps += [["add_origin", "o2", "n1"], ["add_destination", "d1", "n6"]] + [["add_origin", f"r{j + 1}", f"n{a}"] for j, a in enumerate(sorted(ramps))]
+    rng.shuffle(steps)
+    calls = steps + [["is_valid"]]
+    at = {st[2]: st[1] for st in steps if st[0] == "add_origin"}
+    for _ in range(rng.randint(2, 4)):
+        if rng.random() < 0.75:
+            el = rng.choice(sorted(set(at.values()))) if rng.random() < 0.5 else rng.choice(ORIGS)
+            node = rng.choice(NODES)
+            calls.append(["add_origin", el, node])
+            at[node] = el
+        else:
+            calls.append(["add_destination", rng.choice(DESTS), rng.choice(NODES)])
+        calls.append(["is_valid"] if rng.random() < 0.7 else ["read", rng.choice(["origins", "destinations"])])
+    calls.append(["is_valid"])
+    return calls
+
+
 def near_valid_history(rng: random.Random, shape: dict):
     """a valid network enumerated by TLC (DynCases shapes), built through the API in random order (single calls, bulk
     calls, paths), then perturbed by 0-2 further calls; validity is asked after the construction and after every
@@ -153,6 +201,8 @@ def run(pid: str, tier: str) -> dict:
     shapes = [s_ for s_ in shapes if len(s_["edges"]) <= 6]
     rng.shuffle(shapes)
     hist += [(f"nv{seed}-{i}", near_valid_history(rng, shapes[i % len(shapes)])) for i in range(nshape)]
+    hist += [(f"at{seed}-{i}", attach_history(rng)) for i in range(ntr // 2)]
+    hist += [(f"bnv{seed}-{i}", big_near_valid_history(rng)) for i in range(ntr)]
     ctx = mp.get_context("spawn")
     with ctx.Pool(min(NCPU, 8)) as pool:
         traces = pool.map(_record, hist, chunksize=16)
